@@ -99,10 +99,11 @@ func pad3(vs []string) []string {
 
 func init() {
 	registerCheck(&CheckDef{
-		ID:    "C04",
-		Title: "vers.Contains on well-formed ranges with pairwise distinct ascending versions equals the union-of-intervals denotation under the scheme's Compare; vers:<scheme>/* contains every valid version",
-		Pkgs:  []string{zzhPkg},
-		Rule:  "C04Vers: scheme x comparator pattern (every VERS-valid sequence of k comparators) x version templates x probe template; the whole pipeline valid/scheme/normalize/group/print/re-parse/Contains is executed symbolically",
+		ID:         "C04",
+		CfgTimeout: 240,
+		Title:      "vers.Contains on well-formed ranges with pairwise distinct ascending versions equals the union-of-intervals denotation under the scheme's Compare; vers:<scheme>/* contains every valid version",
+		Pkgs:       []string{zzhPkg},
+		Rule:       "C04Vers: scheme x comparator pattern (every VERS-valid sequence of k comparators) x version templates x probe template; the whole pipeline valid/scheme/normalize/group/print/re-parse/Contains is executed symbolically",
 		Gen: func(tier string) []*Config {
 			var out []*Config
 			kmax := 3
@@ -162,8 +163,14 @@ func init() {
 				vt := ts[0]
 				probe := ts[0]
 				kmax := 3
+				if tier != "thorough" && (scheme == "gem" || scheme == "maven") {
+					kmax = 2 // the merged vers.contains of these two schemes is the most expensive
+				}
 				for k := 1; k <= kmax; k++ {
 					pats := versPatterns(k)
+					if tier != "thorough" && k == 3 {
+						pats = thinPats(pats, 12)
+					}
 					if tier != "thorough" && len(pats) > 24 {
 						pats = thinPats(pats, 24)
 					}
@@ -212,7 +219,7 @@ func init() {
 			return out
 		},
 		Bounds: func(tier string) string {
-			return "11 schemes; comparator patterns with k <= 3 (quick: at most 24 patterns per k); all permutations, one duplicate at every position, one empty constraint at every position, one space at every (quick: every third, for k=3) byte position of every constraint (tab, CR and LF are non-printable and belong to C17)"
+			return "11 schemes; comparator patterns with k <= 3 (quick: at most 24 patterns for k=2, 12 for k=3, and k <= 2 for gem and maven); all permutations, one duplicate at every position, one empty constraint at every position, one space at every (quick: every third, for k=3) byte position of every constraint (tab, CR and LF are non-printable and belong to C17)"
 		},
 	})
 
